@@ -1030,12 +1030,14 @@ static std::vector<MathLib::bigint> minUnsignedValue(const Token* tok, int depth
         return result;
     if (const ValueFlow::Value* v = tok->getKnownValue(ValueFlow::Value::ValueType::INT)) {
         result = {v->intvalue};
-    } else if (!Token::Match(tok, "-|%|&|^") && tok->isConstOp() && tok->astOperand1() && tok->astOperand2()) {
+    } else if (Token::Match(tok, "%or%") && tok->astOperand1() && tok->astOperand2()) {
+        // Lower bounds of the operands give a lower bound of the result for '|' only: unsigned '+', '*' and '<<'
+        // wrap around, '/' and '>>' decrease when the right operand grows.
         std::vector<MathLib::bigint> op1 = minUnsignedValue(tok->astOperand1(), depth - 1);
         if (!op1.empty()) {
             std::vector<MathLib::bigint> op2 = minUnsignedValue(tok->astOperand2(), depth - 1);
             if (!op2.empty()) {
-                result = calculate<std::vector<MathLib::bigint>>(tok->str(), op1.front(), op2.front());
+                result = {std::max(op1.front(), op2.front())};
             }
         }
     }
